@@ -5,7 +5,7 @@
 From Coq Require Import String List NArith Bool Lia.
 From J5V.lib Require Import Outcome Corr.
 From J5V.model Require Import J5sAst Desc J5sWalk J5sLink J5sConvert J5sContract J5sValid J5sEdit.
-From J5V.proofs Require Import J5sProofs J5sContractProofs J5sLinkProofs J5sExtProofs J5sCompileProofs J5sLinkExtProofs.
+From J5V.proofs Require Import J5sProofs J5sContractProofs J5sLinkProofs J5sExtProofs J5sTotalProofs J5sCompileProofs J5sLinkExtProofs.
 Import ListNotations.
 Local Open Scope N_scope.
 
@@ -167,3 +167,183 @@ Proof.
 Qed.
 
 End Named.
+
+(* ================================================================== declarations, services, files *)
+Section NamedFiles.
+Variables snake camel screaming : str -> str.
+Hypothesis Hcamel : forall s, nodot_b (camel s) = true.
+Hypothesis Hsnake : forall s, nodot_b (snake s) = true.
+Variable ev : env.
+Hypothesis Henv : forall r t, resolve ev r = Ok t -> tr_pkg t <> [].
+
+Notation cv_props := (cv_props snake camel screaming).
+Notation cv_nested := (cv_nested snake camel screaming).
+Notation cv_nesteds := (cv_nesteds snake camel screaming).
+Notation cv_virtual := (cv_virtual snake camel screaming).
+Notation wf_props := (wf_props snake camel).
+Notation wf_nested := (wf_nested snake camel).
+Notation wf_nesteds := (wf_nesteds snake camel).
+
+Lemma props_named ps io : wf_props ev io ps = true -> forall path n r, path <> [] ->
+  cv_props ev path io n ps = Ok r -> fields_named r.
+Proof. exact (proj1 (proj2 (convert_named snake camel screaming Hcamel Hsnake ev Henv)) ps io). Qed.
+
+Lemma named_with_subs n k r sm se :
+  fields_named r -> pieces_ok sm ->
+  named_ok (DMsg n k (pr_fields r) (pr_msgs r ++ sm) (pr_enums r ++ se)).
+Proof.
+  intros [Hf Hp] Hs. destruct (pieces_app _ _ Hp Hs) as [Hj Hn]. constructor; [exact Hn| |exact Hj].
+  intros f Hin. eapply rel_tn_ok_incl; [|apply Hf; exact Hin]. rewrite map_app. apply incl_appl. apply incl_refl.
+Qed.
+
+Theorem nested_named :
+  (forall n, wf_nested ev n = true -> forall path ms es is, cv_nested ev path n = Ok (ms, es, is) -> pieces_ok ms) /\
+  (forall ns, wf_nesteds ev ns = true -> forall path ms es is, cv_nesteds ev path ns = Ok (ms, es, is) -> pieces_ok ms).
+Proof.
+  apply nested_mutind.
+  - intros nm ps subs IH Hw path ms es is H. cbn in Hw. repeat (apply andb_true_iff in Hw; destruct Hw as [Hw ?]).
+    rewrite (cv_nested_obj snake camel screaming) in H. inv_ok H. destruct a0 as [[sm se] si]. inversion H. subst. clear H.
+    assert (Hne : path ++ [nm] <> []) by (destruct path; discriminate).
+    pose proof (props_named ps false ltac:(assumption) _ _ _ Hne E) as Hr.
+    pose proof (IH ltac:(assumption) _ _ _ _ E0) as Hs.
+    split; [constructor; [apply named_with_subs; assumption|constructor]|].
+    intros m [<-|[]]. cbn [dm_name]. apply type_ident_facts. assumption.
+  - intros nm ps subs IH Hw path ms es is H. cbn in Hw. repeat (apply andb_true_iff in Hw; destruct Hw as [Hw ?]).
+    rewrite (cv_nested_oneof snake camel screaming) in H. inv_ok H. destruct a0 as [[sm se] si]. inversion H. subst. clear H.
+    assert (Hne : path ++ [nm] <> []) by (destruct path; discriminate).
+    pose proof (props_named ps true ltac:(assumption) _ _ _ Hne E) as Hr.
+    pose proof (IH ltac:(assumption) _ _ _ _ E0) as Hs.
+    split; [constructor; [apply named_with_subs; assumption|constructor]|].
+    intros m [<-|[]]. cbn [dm_name]. apply type_ident_facts. assumption.
+  - intros e _ path ms es is H. cbn in H. inversion H. subst. split; [constructor|intros m []].
+  - intros _ path ms es is H. cbn in H. inversion H. subst. split; [constructor|intros m []].
+  - intros n IHn r IHr Hw path ms es is H. cbn in Hw. apply andb_true_iff in Hw. destruct Hw as [H1 H2].
+    rewrite (cv_nesteds_cons snake camel screaming) in H. inv_ok H.
+    destruct a as [[am ae] ai]. destruct a0 as [[cm ce] ci]. inversion H. subst. clear H.
+    apply pieces_app; [eapply IHn; eassumption|eapply IHr; eassumption].
+Qed.
+
+Lemma virtual_named name virt ps m is :
+  wf_virtual snake camel ev (papp virt ps) = true -> nodot_b name = true ->
+  cv_virtual ev name virt ps = Ok (m, is) -> named_ok m /\ dm_name m = name.
+Proof.
+  unfold wf_virtual, J5sConvert.cv_virtual. intros Hw Hn H. apply andb_true_iff in Hw. destruct Hw as [Hw _].
+  inv_ok H. inversion H. subst. clear H.
+  assert (Hne : [name] <> []) by discriminate.
+  pose proof (props_named _ false Hw _ _ _ Hne E) as Hr. split; [apply named_msg; exact Hr|reflexivity].
+Qed.
+
+(* ---- services and topics *)
+Lemma method_named base m ms dm is :
+  wf_method snake camel ev base m = true ->
+  cv_method snake camel screaming ev base m = Ok (ms, dm, is) -> Forall named_ok ms.
+Proof.
+  unfold wf_method, J5sConvert.cv_method. intros Hw H. apply and4 in Hw. destruct Hw as (Hn & Hrq & Hrs & _).
+  apply type_ident_facts in Hn. destruct Hn as [_ Hnd].
+  apply obind_ok in H. destruct H as ([rq rqi] & Erq & H).
+  apply obind_ok in H. destruct H as ([[rmsgs outn] rimps] & Ers & H).
+  apply obind_ok in H. destruct H as (h & _ & H). inversion H. subst. clear H. cbn [fst].
+  destruct (virtual_named _ PNil _ _ _ Hrq (nodot_app _ (b "Request") Hnd eq_refl) Erq) as [Jq _].
+  constructor; [exact Jq|]. destruct (m_response m) as [rs|].
+  - apply obind_ok in Ers. destruct Ers as ([rm rmi] & Erm & Ers). inversion Ers. subst. cbn [fst].
+    destruct (virtual_named _ PNil _ _ _ Hrs (nodot_app _ (b "Response") Hnd eq_refl) Erm) as [Jr _].
+    constructor; [exact Jr|constructor].
+  - inversion Ers. subst. constructor.
+Qed.
+
+Lemma methods_named base l : forall ms ds is,
+  forallb (wf_method snake camel ev base) l = true ->
+  cv_methods snake camel screaming ev base l = Ok (ms, ds, is) -> Forall named_ok ms.
+Proof.
+  induction l as [|m r IH]; intros ms ds is Hw H; cbn [forallb J5sConvert.cv_methods] in Hw, H.
+  - inversion H. constructor.
+  - apply andb_true_iff in Hw. destruct Hw as [H1 H2].
+    apply obind_ok in H. destruct H as ([[am ad] ai] & Ea & H).
+    apply obind_ok in H. destruct H as ([[cm cd] ci] & Ec & H). inversion H. subst. clear H.
+    apply Forall_app. split; [eapply method_named; eassumption|eapply IH; eassumption].
+Qed.
+
+Lemma service_named s ms ss is :
+  wf_service snake camel ev s = true -> cv_service snake camel screaming ev s = Ok (ms, ss, is) -> Forall named_ok ms.
+Proof.
+  unfold wf_service, J5sConvert.cv_service. intros Hw H.
+  apply andb_true_iff in Hw. destruct Hw as [Hw _]. apply andb_true_iff in Hw. destruct Hw as [_ Hw].
+  apply obind_ok in H. destruct H as ([[m1 d1] i1] & E & H). inversion H. subst.
+  eapply methods_named; eassumption.
+Qed.
+
+Lemma tmsgs_named tname single virt l : forall ms ds is,
+  nodot_b tname = true -> forallb (wf_tmsg snake camel ev single virt) l = true ->
+  cv_tmsgs snake camel screaming ev tname single virt l = Ok (ms, ds, is) -> Forall named_ok ms.
+Proof.
+  induction l as [|t r IH]; intros ms ds is Hn Hw H; cbn [forallb J5sConvert.cv_tmsgs] in Hw, H.
+  - inversion H. constructor.
+  - apply andb_true_iff in Hw. destruct Hw as [H1 H2]. unfold wf_tmsg in H1.
+    apply andb_true_iff in H1. destruct H1 as [Hv Hnm].
+    apply obind_ok in H. destruct H as (mn & Emn & H).
+    apply obind_ok in H. destruct H as ([m1 i1] & Ev & H).
+    apply obind_ok in H. destruct H as ([[cm cd] ci] & Er & H). inversion H. subst. clear H. cbn [fst].
+    assert (Hmn : nodot_b mn = true).
+    { destruct (tm_name t) as [x|]; [inversion Emn; subst; apply type_ident_facts in Hnm; apply Hnm|].
+      destruct single; inversion Emn. subst. exact Hn. }
+    destruct (virtual_named _ _ _ _ _ Hv (nodot_app _ (b "Message") Hmn eq_refl) Ev) as [J _].
+    constructor; [exact J|eapply IH; eassumption].
+Qed.
+
+Lemma accept_named tname topic_name rl virt l ms ss is :
+  nodot_b tname = true -> forallb (wf_tmsg snake camel ev (is_single_b l) virt) l = true ->
+  accept_topic snake camel screaming ev tname topic_name rl virt l = Ok (ms, ss, is) -> Forall named_ok ms.
+Proof.
+  unfold J5sConvert.accept_topic. intros Hn Hw H.
+  assert (Hs : is_single l = is_single_b l) by (destruct l as [|? [|? ?]]; reflexivity). rewrite Hs in H.
+  apply obind_ok in H. destruct H as ([[m1 d1] i1] & E & H). inversion H. subst.
+  eapply tmsgs_named; eassumption.
+Qed.
+
+Lemma topic_named t ms ss is :
+  wf_topic snake camel ev t = true -> cv_topic snake camel screaming ev t = Ok (ms, ss, is) -> Forall named_ok ms.
+Proof.
+  destruct t as [name msgs|name req reply|name entity msg|name entity msg]; cbn [wf_topic J5sConvert.cv_topic]; intros Hw H.
+  - apply andb_true_iff in Hw. destruct Hw as [Hn Hw]. apply type_ident_facts in Hn.
+    eapply accept_named; [apply Hn|exact Hw|exact H].
+  - apply andb_true_iff in Hw. destruct Hw as [Hw Hr]. apply andb_true_iff in Hw. destruct Hw as [Hn Hq].
+    apply type_ident_facts in Hn. destruct Hn as [_ Hn].
+    apply obind_ok in H. destruct H as ([[am asv] ai] & Ea & H).
+    apply obind_ok in H. destruct H as ([[cm csv] ci] & Ec & H). inversion H. subst. clear H.
+    apply Forall_app. split.
+    + eapply accept_named; [apply (nodot_app _ (b "Request") Hn eq_refl)|exact Hq|exact Ea].
+    + eapply accept_named; [apply (nodot_app _ (b "Reply") Hn eq_refl)|exact Hr|exact Ec].
+  - apply andb_true_iff in Hw. destruct Hw as [Hn Hw]. pose proof (type_ident_facts _ Hn) as [_ Hnd].
+    eapply accept_named; [exact Hnd| |exact H]. cbn [forallb is_single_b]. rewrite andb_true_r.
+    unfold wf_tmsg, default_tm_name in *. apply andb_true_iff in Hw. destruct Hw as [Hv Hnm].
+    destruct (tm_name msg) eqn:E; cbn [tm_fields tm_name]; rewrite Hv; [rewrite E; exact Hnm|exact Hn].
+  - apply andb_true_iff in Hw. destruct Hw as [Hn Hw]. pose proof (type_ident_facts _ Hn) as [_ Hnd].
+    eapply accept_named; [exact Hnd| |exact H]. cbn [forallb is_single_b]. rewrite Hw. reflexivity.
+Qed.
+
+(* ---- elements: all three output files hold converter-shaped messages *)
+Lemma elements_named pkg els : forall m s t m' s' t',
+  forallb (wf_element snake camel ev) els = true ->
+  Forall named_ok (fa_msgs m) -> Forall named_ok (fa_msgs s) -> Forall named_ok (fa_msgs t) ->
+  cv_elements snake camel screaming ev pkg els m s t = Ok (m', s', t') ->
+  Forall named_ok (fa_msgs m') /\ Forall named_ok (fa_msgs s') /\ Forall named_ok (fa_msgs t').
+Proof.
+  induction els as [|e r IH]; intros m s t m' s' t' Hw Jm Js Jt H; cbn [forallb J5sConvert.cv_elements] in Hw, H.
+  - inversion H. subst. auto.
+  - apply andb_true_iff in Hw. destruct Hw as [Hw1 Hw2]. destruct e as [nm ps subs|nm ps subs|en|sv|tp]; cbn [wf_element] in Hw1.
+    + apply obind_ok in H. destruct H as ([[ms es] is] & E & H).
+      destruct (proj1 nested_named _ Hw1 _ _ _ _ E) as [J _].
+      eapply IH; [exact Hw2| |exact Js|exact Jt|exact H]. cbn. apply Forall_app. auto.
+    + apply obind_ok in H. destruct H as ([[ms es] is] & E & H).
+      destruct (proj1 nested_named _ Hw1 _ _ _ _ E) as [J _].
+      eapply IH; [exact Hw2| |exact Js|exact Jt|exact H]. cbn. apply Forall_app. auto.
+    + eapply IH; [exact Hw2| |exact Js|exact Jt|exact H]. cbn. rewrite app_nil_r. exact Jm.
+    + apply obind_ok in H. destruct H as ([[ms ss] is] & E & H).
+      pose proof (service_named _ _ _ _ Hw1 E) as J.
+      eapply IH; [exact Hw2|exact Jm| |exact Jt|exact H]. cbn. apply Forall_app. auto.
+    + apply obind_ok in H. destruct H as ([[ms ss] is] & E & H).
+      pose proof (topic_named _ _ _ _ Hw1 E) as J.
+      eapply IH; [exact Hw2|exact Jm|exact Js| |exact H]. cbn. apply Forall_app. auto.
+Qed.
+
+End NamedFiles.
